@@ -4,7 +4,7 @@ from .. import core, gen, build
 RULE = ("random copy_surface / blend_surface (28 modes) / blend_surface_with_alpha calls on destinations with and without a "
         "transform, a clip rectangle and an open layer set (all of which must be ignored): destination and source "
         "sizes 0..6 (sometimes up to 40, a few up to 300), src_rect inside/overlapping/outside/empty/inverted incl. far away (up to "
-        "the ends of the i32 range), dst negative/inside/beyond, premultiplied random pixels; non-trivial = at least one destination pixel "
+        "the ends of the i32 range; near-identity transfers between equal-sized surfaces), dst negative/inside/beyond, premultiplied random pixels; non-trivial = at least one destination pixel "
         "is written AND (src_rect.min != (0,0) or the block is cut by a source or destination edge); distinct by "
         "case text. thorough adds the exhaustive enumeration of all rectangles in -1..3 and offsets in -2..3 on "
         "small surfaces")
@@ -31,7 +31,14 @@ def coord(rng, n):
 def make_case(rng, cid, kind=None):
     dw, dh, sw, sh = size(rng), size(rng), size(rng), size(rng)
     c = rng.random()
-    if c < 0.7:
+    if c < 0.1:
+        # near-identity transfers: surfaces of equal size, a rectangle of (about) the source's size at (about) its origin,
+        # destination (about) the origin - whole-surface short cuts live here
+        dw, dh = sw, sh
+        x0, y0 = rng.choice([0, 0, 1, -1, 2, -2]), rng.choice([0, 0, 1, -1, 2])
+        x1, y1 = x0 + sw + rng.choice([0, 0, 0, 1, -1]), y0 + sh + rng.choice([0, 0, 0, 1, -1])
+        dx, dy = rng.choice([0, 0, 0, 1, -1]), rng.choice([0, 0, 0, 1, -1])
+    elif c < 0.7:
         # mostly-valid stream: src_rect overlaps the source, block overlaps the destination
         x0, y0 = rng.randrange(-2, sw + 1), rng.randrange(-2, sh + 1)
         x1, y1 = x0 + rng.randrange(1, sw + 3), y0 + rng.randrange(1, sh + 3)
